@@ -180,6 +180,24 @@ def _single_exit(stmts, rv):
     return out, False
 
 
+def _returns_are_tails(block):
+    """every return is the last statement of its block and nothing follows the if/else that contains it (single-exit shape)"""
+    for i, st in enumerate(block):
+        last = i == len(block) - 1
+        if isinstance(st, ast.Return):
+            if not last:
+                return False
+        elif isinstance(st, ast.If):
+            has = any(isinstance(x, ast.Return) for x in ast.walk(st))
+            if has and not last:
+                return False
+            if has and not (_returns_are_tails(st.body) and _returns_are_tails(st.orelse)):
+                return False
+        elif any(isinstance(x, ast.Return) for x in ast.walk(st)):
+            return False
+    return True
+
+
 def _bool_context(t):
     """in a test only truthiness matters: `X if C else False` is `C and X`, `True if C else Y` is `C or Y` (also under not / and / or)"""
     if isinstance(t, ast.UnaryOp) and isinstance(t.op, ast.Not):
@@ -364,6 +382,34 @@ class Inliner:
                     if ch:
                         h.body = nb
                         changed = True
+            # `if helper(...): <jump>` where the helper returns only True / False: its `return True` is the jump, `return False` falls through
+            if isinstance(st, ast.If) and not st.orelse and len(st.body) == 1 and isinstance(st.body[0], (ast.Break, ast.Continue, ast.Return)) \
+                    and depth < DEPTH:
+                t, want = st.test, True
+                if isinstance(t, ast.UnaryOp) and isinstance(t.op, ast.Not):
+                    t, want = t.operand, False
+                if isinstance(t, ast.Call) and self.new_edge(f, t):
+                    r = self.resolve(f, t)
+                    if r is not None and self.eligible(r[0]) and r[0].fq not in stack:
+                        g, how = r
+                        m = self.bind(g, how, t)
+                        hb = _clone(_body_without_doc(g.node))
+                        rets = [n for x in hb for n in ast.walk(x) if isinstance(n, ast.Return)]
+                        if m is not None and rets and all(isinstance(rr.value, ast.Constant) and isinstance(rr.value.value, bool) for rr in rets) \
+                                and all(isinstance(v, str) or _pure(v) for v in m.values()) and _returns_are_tails(hb):
+                            jump = st.body[0]
+
+                            class RJ(ast.NodeTransformer):
+                                def visit_Return(self, n):
+                                    return _clone(jump) if n.value.value is want else ast.copy_location(ast.Pass(), n)
+                            hb = [RJ().visit(_Subst(m).visit(x)) for x in hb]
+                            for x in hb:
+                                ast.fix_missing_locations(x)
+                            hb, _ = self.expand_block(f, hb, depth + 1, stack | {g.fq})
+                            out.extend(hb)
+                            self.sites.append((f.fq, g.fq, getattr(st, "lineno", 0)))
+                            changed = True
+                            continue
             call = None
             if isinstance(st, ast.Expr) and isinstance(st.value, ast.Call):
                 call = st.value
